@@ -147,6 +147,8 @@ def expect(g, tb, data, skip_ws=True, skip_nl=True, ctx_mode=None, matchers=None
                 ev.append('r%d(%s)=N;' % (r, ''.join(args))); node_val[id(node)] = 0
             elif rule.ftor == 'f':
                 v = fresh(); ev.append('r%d(%s)=%d;' % (r, ''.join(args), v)); node_val[id(node)] = (v, []) if vt == 'B' else v
+            elif rule.ftor == 'lr':
+                v = 900000 + r; ev.append('r%d(%s)=%d;' % (r, ''.join(args), v)); node_val[id(node)] = v      # reference to a persistent table entry: copied, never consumed
             elif rule.ftor == 'nb':
                 node_val[id(node)] = (fresh(), [])                   # create<Bag>{}: a fresh empty container, no event
             elif rule.ftor[:2] in ('pb', 'eb'):
